@@ -180,6 +180,7 @@ def run_c08(ctx: Ctx):
     if not any(b["kind"] == "translation" for b in ctx.broken):
         pt.stream_stags(ctx)
     pt.oracle_c08(ctx)
+    pt.oracle_gap_c08(ctx)
     ctx.coverage["rule"] = "python/abi tag universe (majors 2-3; minors 0-20 thorough / 8-10 minors quick; every implementation/gil setting; PEP 3149/703 ABI spellings incl. digit-extended ones) x requires_python grid"
 
 
@@ -189,12 +190,13 @@ REGISTRY["C08"] = run_c08
 def run_c16(ctx: Ctx):
     ctx.trusted_base = BASE_TRUST + ["Model/Tags.v (compare, _evaluate_python) and Model/Platform.v are hand-written models tied by the S-cmp, S-tags and S-plat streams",
                                      "C16_plat / nesting theorems are stated for the supported families (manylinux major 2, musllinux major 1, macOS x86_64 10.x with minor <= 16 or >= 11, macOS arm64, Windows)"]
-    props_spec.proof_step(ctx, "Props/C16.v", ["C16_python", "C16_plat", "C16_cmp_refl", "C16_cmp_not_both_higher", "C16_cmp_higher_nested", "C16_cmp_loe_nested",
+    props_spec.proof_step(ctx, "Props/C16.v", ["C16_python", "C16_plat", "C16_cmp_refl", "C16_cmp_not_both_higher", "C16_cmp_higher_nested", "C16_cmp_loe_nested", "C16_cmp_loe",
                                                "C16_cmp_incompatible_sym", "compare_total"], extra_targets=["Model/CorrTags.v", "Model/CorrPlat.v"])
     if not any(b["kind"] == "translation" for b in ctx.broken):
         pt.stream_scmp(ctx)
         pt.stream_splat(ctx)
     pt.oracle_c16(ctx)
+    pt.oracle_gap_c16(ctx)
     ctx.coverage["rule"] = "pairs of EnvSpec over requires_python x platform x implementation (correspondence: 1500/20000 random pairs biased to equal / near-equal specs); wheels from the tag universe"
 
 
@@ -273,7 +275,7 @@ def run_c11(ctx: Ctx):
     ctx.trusted_base = PARSE_TRUST + ["Model/Bridge.v is a hand-written model of MarkerExpression._get_specifier (comparison / ~= / wildcard operators), from_specifier (incl. the python_full_version zero padding) and of the version branch of _evaluate "
                                       "(= packaging's Specifier(op operand).contains(value) = clause_sem) over tokenised atoms; tied to the code by the S-bridge stream (specifier view compared structurally, evaluate() on an interpreter grid, from_specifier results)",
                                       "`in` / `not in` lists are outside the model (string containment; known finding pv-in-substring): direct oracle only"]
-    props_spec.proof_step(ctx, "Props/C11.v", ["C11_view", "C11_back", "C11_padding", "C11_merge", "C11_normalize", "C11_merge_pv", "C11_reversed"], extra_targets=["Model/Bridge.v", "Model/CorrParse.v", "Model/Corr.v"])
+    props_spec.proof_step(ctx, "Props/C11.v", ["C11_view", "C11_back", "C11_padding", "C11_merge", "C11_normalize", "C11_merge_pv", "C11_reversed", "C11_link", "C11_linked_ops"], extra_targets=["Model/Bridge.v", "Model/CorrParse.v", "Model/Corr.v"])
     if not any(b["kind"] == "translation" for b in ctx.broken):
         sbridge.stream_sbridge(ctx)
         sparse.stream_sparse(ctx, 120 if ctx.tier == "quick" else 1500)
